@@ -229,7 +229,7 @@ func c06oracle(c *rcluster, cs c06case, sc sessCfg, res sessResult) (string, str
 func unitC06(e common.Env, p *common.Part) {
 	p.Rule = "scripted key-generation + signing sessions over PRNG membership maps (shifted, random injective, 1..3 replicas per party with a PRNG choice of the participating replica, duplicate party), loud (real disc.Member), barrier and silent mode, session sizes 2..5, random delivery policies; distinct key = (map, participants, mode, phase); non-trivial when the map is not the identity on the participants"
 	p.Assumptions = append(p.Assumptions, "exactly the expected number of members invoke each call; quick tier: ids <= 250 (large ids are C13's subject), thorough: full 16-bit range incl. byte boundaries")
-	n := e.Pick(140, 2500)
+	n := e.Pick(140, 12000)
 	for i := 0; i < n; i++ {
 		if !e.Mine(i) || p.ViolationCount() >= 3 {
 			continue
